@@ -118,16 +118,28 @@ class MultiFunction(Generic[T, P]):
         with self._lock:
             best_key: T | None = None
             best_method: Method | None = None
-            for method_key, method in self._methods.items():
-                if self._is_a(key, method_key):
-                    if best_key is None or self._precedes(method_key, best_key):
-                        best_key, best_method = method_key, method
-                    if not self._precedes(best_key, method_key):
-                        raise runtime.RuntimeException(
-                            "Cannot resolve a unique method for dispatch value "
-                            f"'{key}'; '{best_key}' and '{method_key}' both match and "
-                            "neither is preferred"
-                        )
+            matches = [
+                (method_key, method)
+                for method_key, method in self._methods.items()
+                if self._is_a(key, method_key)
+            ]
+            for method_key, method in matches:
+                if best_key is None or self._precedes(method_key, best_key):
+                    best_key, best_method = method_key, method
+
+            # `_precedes` is not transitive and the method table is iterated in no
+            # particular order, so the key which survived the scan above is only the
+            # answer if it precedes every other matching key (and none precedes it).
+            for method_key, _ in matches:
+                if method_key is not best_key and (
+                    not self._precedes(best_key, method_key)
+                    or self._precedes(method_key, best_key)
+                ):
+                    raise runtime.RuntimeException(
+                        "Cannot resolve a unique method for dispatch value "
+                        f"'{key}'; '{best_key}' and '{method_key}' both match and "
+                        "neither is preferred"
+                    )
 
             if best_method is None:
                 best_method = self._methods.val_at(self._default)
